@@ -11,6 +11,7 @@ from ..cfg import CFG, PathEnumerator
 from ..engine import AnalysisError, ClassInfo, External, FunctionInfo, body_walk, norm, src, walk_no_nested
 from ..flow import cfg_node_of, inline, locals_of
 from ..report import Ctx
+from ..decide import key as ckey
 from .callgraph import callgraph
 from .common import (callee, callee_name, calls, ev, fact_eq_const, facts, for_loops, method_calls, one, parent, require, self_attr,
                      try_ev, typer, unparse_facts)
@@ -96,40 +97,57 @@ def dispatch(ctx: Ctx) -> None:
     p = ctx.p
     fi = p.func(DETECT)
     sp = fi.param_names()[0]
-    found: Dict[str, Any] = {}
-    for r in [n for n in body_walk(fi.node) if isinstance(n, ast.Return)]:
-        fs = facts(ctx, fi, r)
-        for atom, pol in fs:
-            if pol and isinstance(atom, ast.Compare) and len(atom.ops) == 1 and isinstance(atom.ops[0], ast.Eq):
-                c = try_ev(ctx, fi, atom.comparators[0])
-                if isinstance(c, str) and isinstance(atom.left, ast.Name) and isinstance(r.value, ast.Tuple) and len(r.value.elts) == 2:
-                    flag = try_ev(ctx, fi, r.value.elts[1])
-                    found[c] = (flag, atom.left.id, r)
-    ctx.expect("R-TABLE", fi, "suffix dispatch table == {ssc: SSC, sm: SM}", {k: v[0] for k, v in found.items()} == {"ssc": True, "sm": False},
-               str({k: v[0] for k, v in found.items()}), f"suffix dispatch is {({k: v[0] for k, v in found.items()})}; documented: .ssc -> SSC, .sm -> SM", node=fi.node)
-    for k, (flag, var, r) in found.items():
-        e = inline(ast.Name(id=var, ctx=ast.Load()), fi)
-        bs = locals_of(fi).b.get(var, [])
-        srcs = [b.value for b in bs if b.value is not None]
-        low = any(isinstance(n, ast.Call) and isinstance(n.func, ast.Attribute) and n.func.attr in ("lower", "casefold") for s in srcs for n in ast.walk(s))
-        part = any(isinstance(n, ast.Call) and isinstance(n.func, ast.Attribute) and n.func.attr in ("rpartition", "rsplit", "splitext") for s in srcs for n in ast.walk(s))
-        idx_ok = all((b.index is None) or b.index == (2,) or b.index == (1,) for b in bs)
-        last = all(b.index == (2,) for b in bs if any(isinstance(n, ast.Call) and isinstance(n.func, ast.Attribute) and n.func.attr == "rpartition" for n in ast.walk(b.value)))
-        ctx.expect("R-SYM", fi, f"suffix compared with '{k}' is lower-cased text after the last '.'", low and part and last, "",
-                   f"suffix variable '{var}' is derived from {', '.join(src(s) for s in srcs)}", node=r)
+    from .tables import function_decs, judge as tjudge, sums_of as tsums, terminal_text
+    from ..decide import IGNORE
+    sums = tsums(ctx, fi)
+    SUF = f"{sp}.name.lower().rpartition('.')[2]"
+    T1, T2, NS = f"isinstance({sp}, TextIOWrapper)", f"isinstance({sp}, TextIO)", f"type({sp}.name) is str"
+    S1, S2 = f"{SUF} == 'ssc'", f"{SUF} == 'sm'"
+
+    def spec(a):
+        if (a[T1] or a[T2]) and a[NS]:
+            if a[S1]:
+                return f"return ({sp}, True)"
+            if a[S2]:
+                return f"return ({sp}, False)"
+        return IGNORE  # decided from the text (judged below)
+
+    def out(s_):
+        t = terminal_text(s_)
+        return t if t in (f"return ({sp}, True)", f"return ({sp}, False)") and not any(e.kind in ("except",) or (e.kind == "bind" and e.opaque and "parse_msd" in e.text) for e in s_.effects) else "from the text"
+
+    decs = function_decs(sums, out)
+    eqv = {f"{sp}.name.lower().endswith('.ssc')": (S1, True), f"{sp}.name.lower().endswith('.sm')": (S2, True),
+           f"{sp}.name.lower().rsplit('.', 1)[-1] == 'ssc'": (S1, True), f"{sp}.name.lower().rsplit('.', 1)[-1] == 'sm'": (S2, True),
+           f"isinstance({sp}.name, str)": (NS, True)}
+    tjudge(ctx, "R-TABLE", fi, "suffix dispatch: a named text stream whose lower-cased name ends in .ssc is SSC, in .sm is SM (decided without reading it)", decs, [T1, T2, NS, S1, S2], spec, equiv=eqv,
+           why="documented: .ssc -> SSC, .sm -> SM, compared case-insensitively on the text after the last '.'")
+    # a path that answers True/False without reading the text must be one of the two suffix answers
+    early = [d for d in decs if d.outcome != "from the text"]
+    ok_only = all(((d.assign.get(ckey(T1)) or d.assign.get(ckey(T2))) and d.assign.get(ckey(NS)) and (d.assign.get(ckey(S1)) or d.assign.get(ckey(S2)))) for d in early)
+    ctx.expect("R-TABLE", fi, "nothing but the two suffixes decides the format without reading the text", ok_only and len(early) >= 2, f"{len(early)} early answers",
+               "an answer is given before the text is parsed under conditions other than the .ssc / .sm suffix", node=fi.node)
     # fallback: first key upper-cased == VERSION
-    rets = [n for n in body_walk(fi.node) if isinstance(n, ast.Return) and isinstance(n.value, ast.Tuple) and len(n.value.elts) == 2]
-    fb = [r for r in rets if not isinstance(r.value.elts[1], ast.Constant)]
-    r = one(fb, f"fallback return in {DETECT}")
-    good = False
-    for n in ast.walk(inline(r.value.elts[1], fi)):
-        if isinstance(n, ast.Compare) and len(n.ops) == 1 and isinstance(n.ops[0], ast.Eq):
-            l, rr = n.left, n.comparators[0]
-            for a, b in ((l, rr), (rr, l)):
-                if (isinstance(a, ast.Call) and isinstance(a.func, ast.Attribute) and a.func.attr == "upper" and isinstance(a.func.value, ast.Attribute)
-                        and a.func.value.attr == "key" and try_ev(ctx, fi, b) == "VERSION"):
-                    good = True
-    ctx.expect("R-TABLE", fi, "fallback: first key upper-cased == 'VERSION'", good, src(r.value.elts[1]), f"fallback test is {src(r.value.elts[1])}", node=r)
+    good = True
+    seen_fb = 0
+    shown = ""
+    for d in decs:
+        if d.outcome != "from the text" or d.src.end == "raise":
+            continue
+        k_, v = d.src.terminal()
+        seen_fb += 1
+        shown = ast.unparse(v) if v is not None else "None"
+        okp = False
+        if isinstance(v, ast.Tuple) and len(v.elts) == 2:
+            for n in ast.walk(v.elts[1]):
+                if isinstance(n, ast.Compare) and len(n.ops) == 1 and isinstance(n.ops[0], ast.Eq):
+                    l, rr = n.left, n.comparators[0]
+                    for a_, b_ in ((l, rr), (rr, l)):
+                        if (isinstance(a_, ast.Call) and isinstance(a_.func, ast.Attribute) and a_.func.attr == "upper" and isinstance(a_.func.value, ast.Attribute)
+                                and a_.func.value.attr == "key" and isinstance(b_, ast.Constant) and b_.value == "VERSION"):
+                            okp = True
+        good = good and okp
+    ctx.expect("R-TABLE", fi, "fallback: first key upper-cased == 'VERSION'", good and seen_fb > 0, shown, f"fallback answer is {shown}", node=fi.node)
     # the peeked parameter is the FIRST one: next(parser) exactly once
     nx = [c for c in calls(fi) if isinstance(c.func, ast.Name) and c.func.id == "next"]
     ctx.expect("R-TABLE", fi, "the peek reads exactly the first parameter", len(nx) == 1, f"{len(nx)} next() call(s)", f"{len(nx)} next() calls", node=fi.node)
@@ -183,48 +201,29 @@ def funnel(ctx: Ctx) -> None:
         target = base_init if ep != "simfile.ssc:SSCChart.from_str" else "simfile.ssc:SSCChart._parse"
         ctx.expect("R-FWD", f, f"{f.qualname} reaches {target.split(':')[1]}", target in reach, "",
                    f"{ep} no longer reaches {target} in the resolved call graph", node=f.node)
-    # the constructors run the format's own _parse on the tokenizer's output
+    # the constructors run the format's own _parse on the tokenizer's output: string verbatim, file either as is or re-read completely,
+    # whenever a source was given (also an empty string)
     bi = p.func(base_init)
     sn = bi.param_names()[0]
-    pc = [c for c in method_calls(bi, "_parse") if isinstance(c.func.value, ast.Name) and c.func.value.id == sn]
-    c = one(pc, "self._parse(...) call in BaseSimfile.__init__")
-    a = inline(c.args[0], bi) if c.args else None
-    ctx.expect("R-FWD", bi, "the constructor parses exactly the tokenizer's output", isinstance(a, ast.Call) and callee_name(ctx, bi, a).endswith("parse_msd"),
-               src(a) if a is not None else "", "self._parse is not fed by parse_msd(...)", node=c)
-    # file / string reach the tokenizer: string verbatim, file either as is or re-read completely
-    for tc in [x for x in calls(bi) if callee_name(ctx, bi, x).endswith("parse_msd")]:
-        kw = {k.arg: k.value for k in tc.keywords}
-        ctx.expect("R-FWD", bi, "string= reaches the tokenizer unchanged", isinstance(kw.get("string"), ast.Name) and kw["string"].id == "string" and locals_of(bi).only_param("string"),
-                   "", f"string argument is {src(kw['string']) if 'string' in kw else 'absent'}", node=tc)
-        fv = kw.get("file")
-        okf = False
-        if isinstance(fv, ast.Name):
-            vals = [b.value for b in locals_of(bi).b.get(fv.id, []) if b.kind == "assign"]
-            okf = bool(vals)
-            for v in vals:
-                if isinstance(v, ast.Constant) and v.value is None:
-                    continue
-                if isinstance(v, ast.Name) and v.id == "file":
-                    continue
-                # StringIO("".join(file))
-                if (isinstance(v, ast.Call) and callee_name(ctx, bi, v).endswith("StringIO") and len(v.args) == 1 and isinstance(v.args[0], ast.Call)
-                        and isinstance(v.args[0].func, ast.Attribute) and v.args[0].func.attr == "join" and try_ev(ctx, bi, v.args[0].func.value) == ""
-                        and len(v.args[0].args) == 1 and isinstance(v.args[0].args[0], ast.Name) and v.args[0].args[0].id == "file"):
-                    continue
-                okf = False
-        ctx.expect("R-FWD", bi, "file= reaches the tokenizer as the stream itself or its complete text", okf, "", f"file argument is {src(fv) if fv is not None else 'absent'}", node=tc)
-    # the parse happens whenever a source was given, also an empty string
-    from ..decide import decisions, judge_table
-    pset = {id(x) for x in pc}
+    from .tables import Dec, closed_text, judge as tjudge, sums_of as tsums, touches
+    from ..decide import IGNORE
+    sums = tsums(ctx, bi)
+    FN, SN, FT, TI = "file is None", "string is None", "file", "isinstance(file, TextIO)"
+    decs = []
+    for s_ in sums:
+        eff = [e for e in s_.effects if e.kind == "expr" and touches(e, [sn]) and isinstance(e.value, ast.Call) and isinstance(e.value.func, ast.Attribute) and e.value.func.attr == "_parse"]
+        decs.append(Dec(dict(s_.plain_assign()), tuple(closed_text(s_, e, keep=[sn]) for e in eff), s_))
 
-    def outcome(d):
-        for st in d.stmts():
-            if any(id(n) in pset for n in ast.walk(st)):
-                return "parse"
-        return "skip"
+    def spec(a):
+        if a[FN] and a[FT]:
+            return IGNORE
+        if a[FN] and a[SN]:
+            return ()
+        src_ = "file" if (a[FT] and a[TI]) else ("StringIO(''.join(file))" if a[FT] else "None")
+        return (f"{sn}._parse(parse_msd(file={src_}, string=string, ignore_stray_text=not strict))",)
 
-    judge_table(ctx, "R-TABLE", bi, "parse runs iff file or string is given (is not None)", decisions(ctx, bi), ["file is None", "string is None"],
-                lambda a: "skip" if (a["file is None"] and a["string is None"]) else "parse", outcome, dont_care=["file", "isinstance(file, TextIO)"])
+    tjudge(ctx, "R-FWD", bi, "the constructor parses exactly the tokenizer's output, whenever file or string is given (is not None): string= unchanged, file= as the stream itself or its complete text",
+           decs, [FN, SN, FT, TI], spec, why="a second parsing path or a partial re-read would diverge from the documented rules")
 
 
 def peek_copy(ctx: Ctx) -> None:
